@@ -243,6 +243,7 @@ _SIGS = {
     'vp_touch_bytes': (C.c_uint, [c_void_p, C.c_size_t]),
     'vp_ustrlen': (C.c_size_t, [c_void_p]),
     'vp_open_reader': (c_void_p, [C.c_char_p, C.c_size_t, C.c_long, C.c_size_t]),
+    'vp_reader_failures': (C.c_long, []),
     'vp_open_writer': (c_void_p, []),
     'vp_writer_file': (c_void_p, [c_void_p]),
     'vp_writer_data': (c_void_p, [c_void_p, P(C.c_size_t)]),
@@ -758,6 +759,7 @@ class Lib:
             rc = self.call('cif_parse', f, C.byref(opts) if opts is not None else None, C.byref(p))
             return rc, p.value
         finally:
+            self.last_read_failures = self.vp_reader_failures()     # injected read failures the parse actually met
             self.vp_fclose(f)
 
     def write_bytes(self, cif, version=None):
